@@ -1012,13 +1012,10 @@ func (r *RouteTrie) UpdatePool(cidr ip.CIDR, poolType proto.IPPoolType, natOutgo
 }
 
 func (r *RouteTrie) markChildrenDirty(cidr ip.CIDR) {
-	// TODO: avoid full scan to mark children dirty
 	trie := r.trieForCIDR(cidr)
-	trie.Visit(func(c ip.CIDR, data any) bool {
+	trie.VisitCoveredBy(cidr, func(c ip.CIDR, data any) bool {
 		r.OnAlive()
-		if cidr.Contains(c.Addr()) {
-			r.MarkCIDRDirty(c)
-		}
+		r.MarkCIDRDirty(c)
 		return true
 	})
 }
@@ -1039,7 +1036,7 @@ func (r *RouteTrie) RemovePool(cidr ip.CIDR) {
 }
 
 func (r *RouteTrie) UpdateBlockRoute(cidr ip.CIDR, nodeName string) {
-	r.updateCIDR(cidr, func(ri *RouteInfo) {
+	changed := r.updateCIDR(cidr, func(ri *RouteInfo) {
 		block := Block{NodeName: nodeName}
 
 		if len(ri.Blocks) == 0 {
@@ -1048,13 +1045,23 @@ func (r *RouteTrie) UpdateBlockRoute(cidr ip.CIDR, nodeName string) {
 			ri.Blocks[0] = block
 		}
 	})
+	if !changed {
+		return
+	}
+	// The routes for addresses within the block depend on the block (for example, whether they
+	// are "borrowed") so they need to be recalculated too.
+	r.markChildrenDirty(cidr)
 }
 
 func (r *RouteTrie) RemoveBlockRoute(cidr ip.CIDR) {
-	r.updateCIDR(cidr, func(ri *RouteInfo) {
+	changed := r.updateCIDR(cidr, func(ri *RouteInfo) {
 		// The datastore constraints guarantee that we only see one Block for a CIDR.
 		ri.Blocks = nil
 	})
+	if !changed {
+		return
+	}
+	r.markChildrenDirty(cidr)
 }
 
 func (r *RouteTrie) AddHost(cidr ip.CIDR, nodeName string) {
